@@ -26,4 +26,9 @@ pub mod common;
 pub mod datamodel;
 pub mod event_io_processor;
 pub mod expression_engine;
+#[cfg(not(rfsm_verif))]
 pub mod test;
+
+/// Verification seams (scheduler, channels, timers): only with `--cfg rfsm_verif`; the crate is supplied by the verification harness.
+#[cfg(rfsm_verif)]
+pub extern crate rfsm_verif_seams as verif_seams;
